@@ -524,6 +524,7 @@ func (e *kvElection) becomeLeader(token string, rev uint64) {
 		)
 		promoteCtx, cancel := context.WithCancel(termCtx)
 		onPromote := e.onPromote
+		started := make(chan struct{})
 		wg.Add(1)
 		go func() {
 			defer wg.Done()
@@ -538,8 +539,13 @@ func (e *kvElection) becomeLeader(token string, rev uint64) {
 				}
 			}()
 			defer cancel()
+			close(started)
 			onPromote(promoteCtx, token)
 		}()
+		// The callback runs on its own goroutine, but it is on its way before the
+		// election mutex is released: whatever ends this term needs that mutex,
+		// so the term's OnDemote cannot overtake its OnPromote.
+		<-started
 	}
 }
 
